@@ -167,6 +167,11 @@ class Ctx:
     def begin(self, case):
         self.case = case
         self.region_override = None
+        try:        # how this case spells the case-insensitive option strings of the filter registry
+            from . import filt
+            filt.SPELL_K = int(case.digest(), 16) % 5
+        except Exception:
+            pass
 
     def note(self, key, n=1):
         self.notes[key] = self.notes.get(key, 0) + n
